@@ -345,3 +345,14 @@ def mark_opaque(t):
         if isinstance(s, Op) and s.op == "call" and isinstance(s.args[0], Sym):
             rep[s] = Sym(s.args[0].name + "()", ("tensor", "buffer"))
     return subst(t, rep) if rep else t
+
+
+_check_before_r2m = check
+
+
+def check(ctx, run):  # noqa: F811
+    _check_before_r2m(ctx, run)
+    # R2m: the built-in models are pointwise in time (no operator along the time or path axis): otherwise the all-steps evaluation, which
+    # hands them (N, T, F), and the step-by-step evaluation, which hands them (N, 1, F), cannot agree
+    from .c02 import models_pointwise_in_time
+    models_pointwise_in_time(ctx, run, rule="C03.R2m", causal_ok=False)
